@@ -11,7 +11,9 @@
                   S/N untouched; S/A after add_ase = S p/(A p + a), S/N after add_nli = S(1-r)/(N(1-r)+r): each is
                   <= the old ratio iff the injected term is >= 0.
  R3 sign        : sign domain: Edfa.noise_profile > 0; GN-analytic eta >= 0 (asinh difference with non-negative
-                  scale: needs |beta2| and the ordered extremes); the analytic NLI is a sum of non-negative terms.
+                  scale: needs |beta2| and the ordered extremes); the analytic NLI is a sum of non-negative terms;
+                 every per-pump contribution to the spontaneous Raman ASE is gated by pump frequency > channel frequency,
+                 under which the phonon factor E/(E-1) and the Raman coefficient are non-negative (R3.raman-ase).
 """
 import ast
 
